@@ -15,11 +15,36 @@ type Handle struct {
 	Kind  string
 	Ord   int
 	C     *Ctx
+	// LookupFn, if set, performs this instance's by-name lookups from inside its
+	// initialization callback (installed by the engine).
+	LookupFn func(h *Handle) error
+	looked   bool
 }
 
-func (h *Handle) OnInit(self any) error { return h.C.Callback("init", h.ID, self) }
-func (h *Handle) OnAPS(self any) error  { return h.C.Callback("aps", h.ID, self) }
-func (h *Handle) OnRun(self any) error  { return h.C.Callback("run", h.ID, self) }
+// lookups performs the instance's by-name lookups; a lookup error is returned from the
+// initialization callback (the component cannot initialise without what it looked up).
+func (h *Handle) lookups() error {
+	if h.LookupFn != nil && !h.looked && !h.C.Parallel {
+		h.looked = true
+		return h.LookupFn(h)
+	}
+	return nil
+}
+
+func (h *Handle) OnInit(self any) error {
+	if err := h.C.Callback("init", h.ID, self); err != nil {
+		return err
+	}
+	return h.lookups()
+}
+
+func (h *Handle) OnAPS(self any) error {
+	if err := h.C.Callback("aps", h.ID, self); err != nil {
+		return err
+	}
+	return h.lookups()
+}
+func (h *Handle) OnRun(self any) error { return h.C.Callback("run", h.ID, self) }
 
 // OnClose logs entry, parks until the scheduler releases this closer, then returns the
 // (possibly injected) result.
